@@ -38,6 +38,10 @@ type runLevelCase struct {
 	Noise    int
 	Seed     uint64
 	Faults   []wireFault // optional injected wire faults (C10 extra stream)
+	// FastReply: some routers answer while the sink write of the probe is still in progress (a slow
+	// write, a very near hop): the reply is read and matched before SendProbe has returned. It arrived
+	// inside the listening window and must be reported like any other.
+	FastReply bool
 }
 
 type runLevelOutcome struct {
@@ -115,7 +119,15 @@ func runRunLevel(t *testing.T, c runLevelCase) runLevelOutcome {
 				}
 				pkt := f.encode(fl, p, from, ttl, seqOfProbe(p))
 				d := time.Duration(r.Range(1, 40))*time.Millisecond + time.Duration(r.Range(1, 999))*time.Microsecond
-				time.AfterFunc(d, func() { wire.Inject(pkt) })
+				fast := c.FastReply && r.Chance(1, 2)
+				if fast {
+					wire.Inject(pkt)
+				} else {
+					time.AfterFunc(d, func() { wire.Inject(pkt) })
+				}
+				if fast {
+					defer time.Sleep(time.Duration(r.Range(1, 4)) * time.Millisecond) // the write returns only now
+				}
 				// duplicates only for the parallel engine: C02 restricts the serial engine to histories in
 				// which no reply arrives after its own window (a late duplicate consumes the next window)
 				if kind != "tcp" && r.Chance(1, 4) {
@@ -199,6 +211,7 @@ func genRunLevel(r *hx.RNG) runLevelCase {
 		}
 	}
 	c.Noise = r.Intn(3)
+	c.FastReply = r.Chance(1, 3)
 	return c
 }
 
@@ -250,10 +263,13 @@ func runLevelStream(t *testing.T, rep *hx.Report, rng *hx.RNG, n int) {
 		got := hopsString(o.Hops)
 		key := fmt.Sprintf("%s|%v|%s|%d|%d|%d|%v|%d", c.Proto, c.V6, c.Target, c.Min, c.Max, c.DestHop, c.Silent, c.Seed)
 		replay := map[string]any{"protocol": c.Proto, "target": c.Target.String(), "port": c.Port, "min": c.Min, "max": c.Max,
-			"dest_hop": c.DestHop, "silent": fmt.Sprint(c.Silent), "noise_per_probe": c.Noise, "script_seed": c.Seed,
+			"dest_hop": c.DestHop, "silent": fmt.Sprint(c.Silent), "noise_per_probe": c.Noise, "script_seed": c.Seed, "fast_replies": c.FastReply,
 			"expected_hops": want, "reported_hops": got, "error": fmt.Sprint(o.Err)}
 		rep.Case("run/"+c.Proto, key, true, replay)
 		rep.Hit(fmt.Sprintf("run:%s:v6=%v", c.Proto, c.V6))
+		if c.FastReply {
+			rep.Hit("run:" + c.Proto + ":reply-during-write")
+		}
 		if o.Err != nil {
 			rep.Violate(hx.Violation{Kind: "spec", What: "run over the simulated path failed: " + o.Err.Error(), Sig: map[string]string{"stream": "run", "protocol": c.Proto}, Replay: replay})
 			continue
